@@ -151,3 +151,18 @@ func IDs() []string {
 	sort.Strings(ids)
 	return ids
 }
+
+// PostFunc lets a monitor inspect artefacts of the whole run (e.g. race-detector logs) and add to the summary.
+type PostFunc func(env *Env, sum *Summary)
+
+var postHooks = map[string]PostFunc{}
+
+// RegisterPost installs a post-run hook for a monitor.
+func RegisterPost(id string, f PostFunc) { postHooks[id] = f }
+
+// RunPost runs the post-run hook of monitor id, if any.
+func RunPost(id string, env *Env, sum *Summary) {
+	if f := postHooks[id]; f != nil {
+		f(env, sum)
+	}
+}
